@@ -85,3 +85,7 @@ def run(ctx):
     ex = next((r for r in batch if r["raised"] == "none" and not r.get("pipeline")), batch[0])
     ctx.sample({"compiler": ex["comp"], "declared": ex.get("declared"), "qkind": ex.get("qkind")})
     ctx.assumptions += ["TLC, Json reader trusted", "the kind of the compiled problem is the implementation's own Problem.kind (C10 checks that kind against an independent extractor)"]
+
+
+def replay(ctx, rec):
+    return c08.replay_common(ctx, rec, "C09")
